@@ -1,0 +1,223 @@
+//go:build verif
+
+// Machine-checked contracts for package challenger (comment-only, build tag `verif`).
+//
+// The duplex-sponge challenger of plonky2 (iop/challenger.rs) as a pure transition system on the
+// view  v = (sponge state[12], input buffer[8 slots], input length, output buffer[8 slots], output length)
+// (a 30-tuple; unused slots are 0).  Each method of Chip is specified by the transition it performs on
+// the view of its receiver.
+package challenger
+
+//@ def ch_in(c) = mktuple(8, k, ite(k < len(c.inputBuffer), c.inputBuffer[k].Limb, 0))
+//@ def ch_out(c) = mktuple(8, k, ite(k < len(c.outputBuffer), c.outputBuffer[k].Limb, 0))
+//@ def ch_view(c) = flat(c.spongeState, ch_in(c), len(c.inputBuffer), ch_out(c), len(c.outputBuffer))
+//@ def ch_ok(c) = chipok(c.poseidonChip.Gl) && len(c.inputBuffer) < 8 && len(c.outputBuffer) <= 8 && canonState(c.spongeState) && forall(k, 0, len(c.outputBuffer), canon(c.outputBuffer[k]))
+
+//@ def chv_st(v) = mktuple(12, i, v[i])
+//@ def chv_in(v) = mktuple(8, k, v[12 + k])
+//@ def chv_over(v) = mktuple(12, i, ite(i < 8 && i < v[20], v[ite(i < 8, 12 + i, 12)] % P, v[i]))
+//@ def ch_mk(p) = flat(p, mktuple(8, k, 0), 0, mktuple(8, k, p[k]), 8)
+//@ def ch_duplex(v) = ch_mk(pos_pt(chv_over(v)))
+//@ def ch_push(v, x) = flat(chv_st(v), mktuple(8, k, ite(k == v[20], x, v[12 + k])), v[20] + 1, mktuple(8, k, 0), 0)
+//@ def ch_observe_t(v, x) = ite(v[20] + 1 == 8, ch_duplex(ch_push(v, x)), ch_push(v, x))
+//@ def ch_ready(v) = ite(v[20] != 0 || v[29] == 0, ch_duplex(v), v)
+//@ def ch_pop(r) = flat(chv_st(r), chv_in(r), r[20], mktuple(8, k, ite(k < r[29] - 1, r[21 + k], 0)), r[29] - 1)
+//@ def ch_get_st_t(v) = ch_pop(ch_ready(v))
+// the three primitive transitions as opaque functions (revealed only where the primitive itself is verified)
+//@ opaque def ch_observe_k(v, x, k) = ch_observe_t(v, x)[k]
+//@ opaque def ch_get_st_k(v, k) = ch_get_st_t(v)[k]
+//@ opaque def ch_get_val(v) = ch_ready(v)[20 + ch_ready(v)[29]]
+//@ def ch_observe(v, x) = mktuple(30, k, ch_observe_k(v, x, k))
+//@ def ch_get_st(v) = mktuple(30, k, ch_get_st_k(v, k))
+
+//@ func (c *Chip) duplexing()
+//@   props C11 C05
+//@   circuit
+//@   requires chipok(c.poseidonChip.Gl) && len(c.inputBuffer) <= 8 && canonState(c.spongeState)
+//@   honest forall(k, 0, len(c.inputBuffer), c.inputBuffer[k].Limb < pow2(144) * P)
+//@   modifies c.spongeState
+//@   modifies c.inputBuffer
+//@   modifies c.outputBuffer
+//@   ensures ch_view(c) == ch_duplex(old(ch_view(c)))
+//@   ensures ch_ok(c) && len(c.outputBuffer) == 8 && len(c.inputBuffer) == 0
+
+//@ func (c *Chip) ObserveElement(element gl.Variable)
+//@   props C11 C05
+//@   circuit
+//@   reveal ch_observe_k
+//@   requires ch_ok(c)
+//@   honest element.Limb < pow2(144) * P && forall(k, 0, len(c.inputBuffer), c.inputBuffer[k].Limb < pow2(144) * P)
+//@   modifies c.spongeState
+//@   modifies c.inputBuffer
+//@   modifies c.outputBuffer
+//@   ensures ch_view(c) == ch_observe(old(ch_view(c)), element.Limb)
+//@   ensures ch_ok(c)
+//@   complete_ensures forall(k, 0, len(c.inputBuffer), c.inputBuffer[k].Limb < pow2(144) * P)
+
+//@ func (c *Chip) GetChallenge() (res gl.Variable)
+//@   props C11 C05 C14
+//@   circuit
+//@   reveal ch_get_st_k ch_get_val
+//@   requires ch_ok(c)
+//@   honest forall(k, 0, len(c.inputBuffer), c.inputBuffer[k].Limb < pow2(144) * P)
+//@   modifies c.spongeState
+//@   modifies c.inputBuffer
+//@   modifies c.outputBuffer
+//@   ensures res.Limb == ch_get_val(old(ch_view(c))) && canon(res)
+//@   ensures ch_view(c) == ch_get_st(old(ch_view(c)))
+//@   ensures ch_ok(c) && len(c.inputBuffer) == 0
+
+// ---- sequences of observations / challenges
+//@ recdef ch_obs_seq(v [30]int, el []int, k int) [30]int = ite(k <= 0, v, ch_observe(ch_obs_seq(v, el, k - 1), el[k-1]))
+//@ def ch_obs_bn(v, h) = ch_observe(ch_observe(ch_observe(ch_observe(ch_observe(v, h % pow2(56)), (h / pow2(56)) % pow2(56)), (h / pow2(112)) % pow2(56)), (h / pow2(168)) % pow2(56)), (h / pow2(224)) % pow2(56))
+//@ recdef ch_obs_cap(v [30]int, hs []int, k int) [30]int = ite(k <= 0, v, ch_obs_bn(ch_obs_cap(v, hs, k - 1), hs[k-1]))
+//@ recdef ch_obs_qes(v [30]int, el []QE, k int) [30]int = ite(k <= 0, v, ch_observe(ch_observe(ch_obs_qes(v, el, k - 1), el[k-1][0]), el[k-1][1]))
+//@ recdef ch_getn_st(v [30]int, k int) [30]int = ite(k <= 0, v, ch_get_st(ch_getn_st(v, k - 1)))
+//@ def ch_small(c) = forall(k, 0, len(c.inputBuffer), c.inputBuffer[k].Limb < pow2(144) * P)
+
+//@ func (c *Chip) ObserveElements(elements []gl.Variable)
+//@   props C11 C05
+//@   circuit
+//@   requires ch_ok(c)
+//@   honest ch_small(c) && forall(k, 0, len(elements), elements[k].Limb < pow2(144) * P)
+//@   modifies c.spongeState
+//@   modifies c.inputBuffer
+//@   modifies c.outputBuffer
+//@   ensures ch_view(c) == ch_obs_seq(old(ch_view(c)), elements, len(elements))
+//@   ensures ch_ok(c)
+//@   complete_ensures ch_small(c)
+//@   loop 0 invariant 0 <= i && i <= len(elements) && ch_ok(c) && implies(complete, ch_small(c)) && ch_view(c) == ch_obs_seq(old(ch_view(c)), elements, i)
+
+//@ func (c *Chip) ObserveHash(hash poseidon.GoldilocksHashOut)
+//@   props C11 C05
+//@   circuit
+//@   requires ch_ok(c)
+//@   honest ch_small(c) && forall(k, 0, 4, hash[k].Limb < pow2(144) * P)
+//@   modifies c.spongeState
+//@   modifies c.inputBuffer
+//@   modifies c.outputBuffer
+//@   ensures ch_view(c) == ch_observe(ch_observe(ch_observe(ch_observe(old(ch_view(c)), hash[0].Limb), hash[1].Limb), hash[2].Limb), hash[3].Limb)
+//@   ensures ch_ok(c)
+//@   complete_ensures ch_small(c)
+
+//@ func (c *Chip) ObserveBN254Hash(hash poseidon.BN254HashOut)
+//@   props C11 C05
+//@   circuit
+//@   requires ch_ok(c)
+//@   honest ch_small(c)
+//@   modifies c.spongeState
+//@   modifies c.inputBuffer
+//@   modifies c.outputBuffer
+//@   ensures ch_view(c) == ch_obs_bn(old(ch_view(c)), hash)
+//@   ensures ch_ok(c)
+//@   complete_ensures ch_small(c)
+
+//@ func (c *Chip) ObserveCap(cap []poseidon.BN254HashOut)
+//@   props C11 C05
+//@   circuit
+//@   requires ch_ok(c)
+//@   honest ch_small(c)
+//@   modifies c.spongeState
+//@   modifies c.inputBuffer
+//@   modifies c.outputBuffer
+//@   ensures ch_view(c) == ch_obs_cap(old(ch_view(c)), cap, len(cap))
+//@   ensures ch_ok(c)
+//@   complete_ensures ch_small(c)
+//@   loop 0 invariant 0 <= i && i <= len(cap) && ch_ok(c) && implies(complete, ch_small(c)) && ch_view(c) == ch_obs_cap(old(ch_view(c)), cap, i)
+
+//@ func (c *Chip) ObserveExtensionElement(element gl.QuadraticExtensionVariable)
+//@   props C11 C05
+//@   circuit
+//@   requires ch_ok(c)
+//@   honest ch_small(c) && element[0].Limb < pow2(144) * P && element[1].Limb < pow2(144) * P
+//@   modifies c.spongeState
+//@   modifies c.inputBuffer
+//@   modifies c.outputBuffer
+//@   ensures ch_view(c) == ch_observe(ch_observe(old(ch_view(c)), element[0].Limb), element[1].Limb)
+//@   ensures ch_ok(c)
+//@   complete_ensures ch_small(c)
+
+//@ func (c *Chip) ObserveExtensionElements(elements []gl.QuadraticExtensionVariable)
+//@   props C11 C05
+//@   circuit
+//@   requires ch_ok(c)
+//@   honest ch_small(c) && forall(k, 0, len(elements), elements[k][0].Limb < pow2(144) * P && elements[k][1].Limb < pow2(144) * P)
+//@   modifies c.spongeState
+//@   modifies c.inputBuffer
+//@   modifies c.outputBuffer
+//@   ensures ch_view(c) == ch_obs_qes(old(ch_view(c)), elements, len(elements))
+//@   ensures ch_ok(c)
+//@   complete_ensures ch_small(c)
+//@   loop 0 invariant 0 <= i && i <= len(elements) && ch_ok(c) && implies(complete, ch_small(c)) && ch_view(c) == ch_obs_qes(old(ch_view(c)), elements, i)
+
+//@ func (c *Chip) ObserveOpenings(openings fri.Openings)
+//@   props C11 C05
+//@   circuit
+//@   requires ch_ok(c) && len(openings.Batches) == 2
+//@   honest ch_small(c) && forall(b, 0, 2, forall(k, 0, len(openings.Batches[b].Values), openings.Batches[b].Values[k][0].Limb < pow2(144) * P && openings.Batches[b].Values[k][1].Limb < pow2(144) * P))
+//@   modifies c.spongeState
+//@   modifies c.inputBuffer
+//@   modifies c.outputBuffer
+//@   ensures ch_view(c) == ch_obs_qes(ch_obs_qes(old(ch_view(c)), openings.Batches[0].Values, len(openings.Batches[0].Values)), openings.Batches[1].Values, len(openings.Batches[1].Values))
+//@   ensures ch_ok(c)
+//@   complete_ensures ch_small(c)
+
+//@ func (c *Chip) GetNChallenges(n uint64) (res []gl.Variable)
+//@   props C11 C05
+//@   circuit
+//@   requires ch_ok(c) && n <= pow2(32)
+//@   honest ch_small(c)
+//@   modifies c.spongeState
+//@   modifies c.inputBuffer
+//@   modifies c.outputBuffer
+//@   ensures len(res) == n && forall(k, 0, n, canon(res[k]) && res[k].Limb == ch_get_val(ch_getn_st(old(ch_view(c)), k)))
+//@   ensures ch_view(c) == ch_getn_st(old(ch_view(c)), n)
+//@   ensures ch_ok(c) && implies(n > 0, len(c.inputBuffer) == 0)
+//@   complete_ensures ch_small(c)
+//@   loop 0 invariant 0 <= i && i <= n && i <= pow2(32) && ch_ok(c) && implies(complete, ch_small(c)) && implies(i > 0, len(c.inputBuffer) == 0) && len(challenges) == n && ch_view(c) == ch_getn_st(old(ch_view(c)), i) &&
+//@        forall(k, 0, i, canon(challenges[k]) && challenges[k].Limb == ch_get_val(ch_getn_st(old(ch_view(c)), k)))
+
+//@ func (c *Chip) GetExtensionChallenge() (res gl.QuadraticExtensionVariable)
+//@   props C11 C05
+//@   circuit
+//@   requires ch_ok(c)
+//@   honest ch_small(c)
+//@   modifies c.spongeState
+//@   modifies c.inputBuffer
+//@   modifies c.outputBuffer
+//@   ensures canonQE(res) && res == tuple(ch_get_val(old(ch_view(c))), ch_get_val(ch_get_st(old(ch_view(c)))))
+//@   ensures ch_view(c) == ch_get_st(ch_get_st(old(ch_view(c))))
+//@   ensures ch_ok(c) && len(c.inputBuffer) == 0
+
+// ---- FRI challenges (plonky2 fri_challenges): alpha; per commit-phase cap: observe the cap, draw beta;
+// observe the final polynomial and the proof-of-work witness; draw the proof-of-work response; draw the query indices.
+//@ def ch_get2_st(v) = ch_get_st(ch_get_st(v))
+//@ recdef fri_commit_st(v [30]int, caps [][]int, k int) [30]int = ite(k <= 0, v, ch_get2_st(ch_obs_cap(fri_commit_st(v, caps, k - 1), caps[k-1], len(caps[k-1]))))
+//@ def fri_after_alpha(v) = ch_get2_st(v)
+//@ def fri_before_beta(v, caps, k) = ch_obs_cap(fri_commit_st(fri_after_alpha(v), caps, k), caps[k], len(caps[k]))
+//@ def fri_after_pow(v, caps, coeffs, pw) = ch_observe(ch_obs_qes(fri_commit_st(fri_after_alpha(v), caps, len(caps)), coeffs, len(coeffs)), pw)
+
+//@ func (c *Chip) GetFriChallenges(commitPhaseMerkleCaps []variables.FriMerkleCap, finalPoly variables.PolynomialCoeffs, powWitness gl.Variable, config types.FriConfig) (res variables.FriChallenges)
+//@   props C11 C14 C05
+//@   circuit
+//@   requires ch_ok(c) && config.NumQueryRounds <= pow2(32)
+//@   honest ch_small(c) && powWitness.Limb < pow2(144) * P && forall(k, 0, len(finalPoly.Coeffs), finalPoly.Coeffs[k][0].Limb < pow2(144) * P && finalPoly.Coeffs[k][1].Limb < pow2(144) * P)
+//@   modifies c.spongeState
+//@   modifies c.inputBuffer
+//@   modifies c.outputBuffer
+//@   ensures[alpha] canonQE(res.FriAlpha) && res.FriAlpha == tuple(ch_get_val(old(ch_view(c))), ch_get_val(ch_get_st(old(ch_view(c)))))
+//@   ensures[betas] len(res.FriBetas) == len(commitPhaseMerkleCaps) && forall(k, 0, len(commitPhaseMerkleCaps), canonQE(res.FriBetas[k]) &&
+//@        res.FriBetas[k] == tuple(ch_get_val(fri_before_beta(old(ch_view(c)), commitPhaseMerkleCaps, k)), ch_get_val(ch_get_st(fri_before_beta(old(ch_view(c)), commitPhaseMerkleCaps, k)))))
+//@   ensures[pow] canon(res.FriPowResponse) && res.FriPowResponse.Limb == ch_get_val(fri_after_pow(old(ch_view(c)), commitPhaseMerkleCaps, finalPoly.Coeffs, powWitness.Limb))
+//@   ensures[queries] len(res.FriQueryIndices) == config.NumQueryRounds && forall(k, 0, config.NumQueryRounds, canon(res.FriQueryIndices[k]) &&
+//@        res.FriQueryIndices[k].Limb == ch_get_val(ch_getn_st(ch_get_st(fri_after_pow(old(ch_view(c)), commitPhaseMerkleCaps, finalPoly.Coeffs, powWitness.Limb)), k)))
+//@   ensures ch_ok(c)
+//@   loop 0 invariant 0 <= i && i <= len(commitPhaseMerkleCaps) && ch_ok(c) && implies(complete, ch_small(c)) && len(c.inputBuffer) == 0 && len(friBetas) == i &&
+//@        ch_view(c) == fri_commit_st(fri_after_alpha(old(ch_view(c))), commitPhaseMerkleCaps, i) &&
+//@        forall(k, 0, i, canonQE(friBetas[k]) && friBetas[k] == tuple(ch_get_val(fri_before_beta(old(ch_view(c)), commitPhaseMerkleCaps, k)), ch_get_val(ch_get_st(fri_before_beta(old(ch_view(c)), commitPhaseMerkleCaps, k)))))
+
+//@ def ch_init() = flat(mktuple(12, k, 0), mktuple(8, k, 0), 0, mktuple(8, k, 0), 0)
+//@ func NewChip(api frontend.API) (res *Chip)
+//@   props C11
+//@   circuit sound-only
+//@   ensures ch_ok(res) && ch_view(res) == ch_init()
